@@ -414,9 +414,12 @@ impl<'a> Out<'a> {
         if self.after_header {
             while (self.r.below(100) as u32) < self.st.blank_lines {
                 if self.r.chance(1, 2) {
-                    let b = self.blank();
-                    self.text.push_str(&b);
-                    self.text.push_str("# only a comment");
+                    // comment-only lines start in column 0 as often as not (runs of them must still count line by line)
+                    if self.r.chance(1, 2) {
+                        let b = self.blank();
+                        self.text.push_str(&b);
+                    }
+                    self.text.push_str(*self.r.pick(&["# only a comment", "#", "#1 0", "# end loop"]));
                 } else if self.r.chance(1, 2) {
                     let b = self.blank();
                     self.text.push_str(&b);
@@ -1051,10 +1054,40 @@ pub fn gen_case(r: &mut Prng, p: &Profile) -> Case {
     let n_virt = if p.p_declare > 0 && r.chance(1, 3) { r.below(3) + 1 } else { 0 };
     let declared: Vec<String> = pick_names(r, &["V", "W2", "virt", "SUM"], n_virt);
 
+    // a signal literally called `<output>_out` / `<virtual>_out`, with a column, while `<output>` / `<virtual>` has
+    // none: it is a signal of its own and not the expected column of anything (only bidirectional signals have one)
+    let mut lookalike: Option<(String, String)> = None;
+    if r.chance(1, 10) {
+        let cands: Vec<String> =
+            sigs.iter().filter(|s| s.dir == Dir::Out).map(|s| s.name.clone()).chain(declared.iter().cloned()).collect();
+        if !cands.is_empty() {
+            let b = r.pick(&cands).clone();
+            let nm = format!("{b}_out");
+            if !sigs.iter().any(|s| s.name == nm) {
+                let is_in = r.chance(1, 2);
+                sigs.push(SigSpec {
+                    name: nm.clone(),
+                    bits: *r.pick(p.widths),
+                    dir: if is_in { Dir::In } else { Dir::Out },
+                    default: if is_in { Some(0) } else { None },
+                });
+                lookalike = Some((b, nm));
+            }
+        }
+    }
+
     // header: columns by name
     let mut cols: Vec<(String, bool, usize)> = vec![]; // (name, is input column, bits)
     for s in &sigs {
-        let omit = (r.below(100) as u32) < p.p_omit;
+        let mut omit = (r.below(100) as u32) < p.p_omit;
+        if let Some((b, nm)) = &lookalike {
+            if &s.name == b {
+                omit = true;
+            }
+            if &s.name == nm {
+                omit = false;
+            }
+        }
         match s.dir {
             Dir::In => {
                 if !omit {
@@ -1079,7 +1112,7 @@ pub fn gen_case(r: &mut Prng, p: &Profile) -> Case {
         }
     }
     for d in &declared {
-        if r.chance(3, 4) {
+        if r.chance(3, 4) && lookalike.as_ref().map(|(b, _)| b != d).unwrap_or(true) {
             cols.push((d.clone(), false, 64));
         }
     }
